@@ -66,6 +66,12 @@ def cases(seed, tier):
             'max_msgs': 10 if tier == 'quick' else 30,
             'copies2': tier != 'quick',
             'bseed': prng.randint(0, 10 ** 6),
+            # the base history itself contains an operator pause (of the
+            # workflow, or of a running asynchronous action through
+            # on_action_update) and a later resume, so that copies are
+            # also delivered to PAUSED tasks / executions
+            'pause_kind': [None, None, 'action', 'workflow'][i % 4],
+            'pause_at': prng.randint(2, 14),
         })
     return out
 
@@ -88,6 +94,72 @@ def _dup_op(index, state, copies=1, redelivered=False):
     return op
 
 
+def _pause_plan(case, state):
+    """-> (setup hook, phases).  The pause is triggered by a *logical*
+    condition checked at every unit boundary (k task rows exist), not by a
+    step number, so that it sits at the same place of the history whether or
+    not a duplicate was inserted before it."""
+    kind = case.get('pause_kind')
+    if not kind:
+        return None, []
+    k = 1 + case.get('pause_at', 3) % 4
+
+    def at_boundary(w):
+        if state.get('tried'):
+            return
+        rows = w.rec.rows
+        if len(rows['task']) < k:
+            return
+        if kind == 'workflow':
+            root = w.root()
+            if root is not None and root['state'] == 'RUNNING':
+                state['tried'] = True
+                state['paused'] = 'wf'
+                w.op_pause(root['id'])
+            return
+        acts = sorted((a for a in rows['action'].values()
+                       if a['state'] == 'RUNNING' and
+                       a['name'] == 'verif.async_act'),
+                      key=lambda a: a['id'])
+        if acts:
+            state['tried'] = True
+            state['paused'] = acts[0]['id']
+            w.rec.emit('CMD', cmd='update', action_ex_id=acts[0]['id'],
+                       state='PAUSED')
+            w.command('on_action_update', acts[0]['id'], 'PAUSED')
+
+    def hook(w):
+        w.on_boundary = at_boundary
+
+    def resume(w):
+        what = state.get('paused')
+        if not what:
+            return False
+        if what == 'wf':
+            root = w.root()
+            if root is None or root['state'] != 'PAUSED':
+                return False
+            w.op_resume(root['id'])
+            return True
+        a = w.rec.rows['action'].get(what)
+        if a is not None and a['state'] == 'PAUSED':
+            w.rec.emit('CMD', cmd='update', action_ex_id=what,
+                       state='RUNNING')
+            w.command('on_action_update', what, 'RUNNING')
+            return True
+        # the action finished while it was paused: its workflow (and the
+        # workflows above it) stay PAUSED until the operator resumes them
+        paused = sorted((x for x in w.rec.rows['wf'].values()
+                         if x['state'] == 'PAUSED'),
+                        key=lambda x: (bool(x.get('task_execution_id')),
+                                       x['id']))
+        if not paused:
+            return False
+        w.op_resume(paused[0]['id'])
+        return True
+    return hook, [resume, resume, resume]
+
+
 def _counts(rows):
     return {'tasks': len(rows['task']), 'actions': len(rows['action']),
             'wfs': len(rows['wf'])}
@@ -102,12 +174,18 @@ def run_case(case):
     c0 = dict(case)
     c0['start'] = {'params': {},
                    'wf_ex_id': '00000000-0000-0000-0000-%012d' % case['bseed']}
-    base = ec.execute(c0)
+    pstate = {}
+    bhook, bphases = _pause_plan(case, pstate)
+    base = ec.execute(c0, setup_hook=bhook, phases=bphases,
+                      exc_allow=('ValueError',))
     res['executions'] += 1
     _collect(res, base)
     if base.inconclusive:
         res['inconclusive'] = 'base run: ' + base.inconclusive
         return res
+    if pstate.get('paused'):
+        res['monitor_evaluations']['base-with-pause'] = \
+            res['monitor_evaluations'].get('base-with-pause', 0) + 1
     for v in base.violations:
         res['violations'].append(dict(v, phase='base'))
     msgs = base.world.messages
@@ -139,8 +217,11 @@ def run_case(case):
         for p in poss:
             copies = 2 if (case['copies2'] and brng.random() < 0.3) else 1
             state = {}
+            pst = {}
+            bhook, bphases = _pause_plan(case, pst)
             run = ec.execute(c0, plan=[{'at': p, 'op': _dup_op(
                 m.index, state, copies)}], replay=base.choices,
+                setup_hook=bhook, phases=bphases,
                 exc_allow=('ValueError',))
             res['executions'] += 1
             _collect(res, run)
@@ -207,9 +288,15 @@ def _redelivery(c0, base, m, sent_at, lost, res):
                         m.raw.get('action_ex_id'):
                     return 'drop'
             w.msg_filter = flt
+    bhook, bphases = _pause_plan(c0, {})
+
+    def hooks(w):
+        hook(w)
+        if bhook:
+            bhook(w)
     run = ec.execute(c0, plan=[{'at': s0 + 1, 'op': _dup_op(
         m.index, state, 1, redelivered=True)}], replay=base.choices,
-        setup_hook=hook, exc_allow=('ValueError',))
+        phases=bphases, setup_hook=hooks, exc_allow=('ValueError',))
     res['executions'] += 1
     _collect(res, run)
     if run.inconclusive:
